@@ -529,7 +529,8 @@ def run_scenario(sc: dict, drv: common.Driver | None) -> dict:
             rig.settle()
             peer0 = rig.peer(a0)
             cached = [] if peer0 is None else [rig.rid(r) for r in peer0.neighbor.rib.outgoing.cached_routes()]
-            if ans != ['done'] or (probe, ribrig.NLRI_FAM[probe], 3, 2) not in cached:
+            probe_ok = ans == ['done'] and (probe, ribrig.NLRI_FAM[probe], 3, 2) in cached
+            if not probe_ok and not adj_off:
                 res['failures'].append((['failed-reload', fclass, 'api-broken'], f'after the failed reload `announce route` answered {ans} and the route is {"not " if (probe, ribrig.NLRI_FAM[probe], 3, 2) not in cached else ""}in the Adj-RIB-Out of neighbor {a0}'))
             if model:
                 model.ask(f'reload api {a0} add {probe}:{ribrig.NLRI_FAM[probe]}:3:2:{ribrig.grp_of(probe, 3, 2)} 0')
@@ -553,7 +554,7 @@ def run_scenario(sc: dict, drv: common.Driver | None) -> dict:
                     res['failures'].append((['failed-reload', fclass, 'next-reload-refused'], f'after the failed reload the corrected file is refused: {str(rig.cfg.error).strip()[:160]}'))
                 elif not adj_off:
                     sc2 = copy.deepcopy(sc)
-                    sc2['api'] = sc['api'] + [[a0, 'announce', probe, 3, 2]]
+                    sc2['api'] = sc['api'] + ([[a0, 'announce', probe, 3, 2]] if probe_ok else [])
                     want = expected_after(sc2)
                     for a, allowed in want.items():
                         t = rig.table(a)
